@@ -86,6 +86,9 @@ func (c *Ctx) N(quick int) int {
 type propFn func(c *Ctx)
 
 var props = map[string]propFn{}
+
+// corrs: model correspondences (write the Coq cases file); run after the property oracle
+var corrs = map[string]propFn{}
 var replays = map[string]func(c *Ctx, input json.RawMessage) (bool, string){}
 
 func main() {
@@ -110,12 +113,20 @@ func main() {
 		os.Exit(doReplay(c, *file))
 	}
 	fn, ok := props[name]
-	if !ok {
+	cfn, cok := corrs[name]
+	if !ok && !cok {
 		fmt.Println("unknown property", name)
 		os.Exit(2)
 	}
 	c.Res = &Result{Property: name, Failures: []Failure{}}
-	fn(c)
+	if ok {
+		fn(c)
+	}
+	if cok {
+		// the correspondence draws from its own PRNG stream so that adding oracle cases does not shift it
+		c.Rng = rand.New(rand.NewSource(*seed*7919 + 13))
+		cfn(c)
+	}
 	c.Res.Distinct = len(c.Res.distinct)
 	if c.Cases != "" && c.caseSB.Len() > 0 {
 		if err := os.WriteFile(c.Cases, []byte(c.caseSB.String()), 0644); err != nil {
